@@ -7,8 +7,8 @@ import (
 	"github.com/brutella/hc/hap/pair"
 	"github.com/brutella/hc/log"
 	"github.com/brutella/hc/util"
+	"strconv"
 
-	"io"
 	"net/http"
 )
 
@@ -59,23 +59,37 @@ func (endpoint *PairVerify) ServeHTTP(response http.ResponseWriter, request *htt
 		log.Info.Println(err)
 		response.WriteHeader(http.StatusInternalServerError)
 	} else {
-		io.Copy(response, out.BytesBuffer())
+		body := out.BytesBuffer().Bytes()
 
 		// When key verification is done, switch to a secure session
 		// based on the negotiated shared session key
-		b := out.GetByte(pair.TagSequence)
-		switch pair.VerifyStepType(b) {
-		case pair.VerifyStepFinishResponse:
-			if out.GetByte(pair.TagErrCode) != pair.ErrCodeNo.Byte() {
-				// Verification failed: the connection stays unverified and in plaintext
-				break
-			}
-			if secSession, err = crypto.NewSecureSessionFromSharedKey(ctlr.SharedKey()); err == nil {
-				log.Debug.Println("Setup secure session")
-				session.SetCryptographer(secSession)
-			} else {
-				log.Info.Panic("Could not setup secure session.", err)
-			}
+		verified := pair.VerifyStepType(out.GetByte(pair.TagSequence)) == pair.VerifyStepFinishResponse &&
+			out.GetByte(pair.TagErrCode) == pair.ErrCodeNo.Byte()
+		if verified == false {
+			// (Verification failed: the connection stays as it is – unverified and in plaintext)
+			response.Write(body)
+			return
 		}
+
+		if secSession, err = crypto.NewSecureSessionFromSharedKey(ctlr.SharedKey()); err != nil {
+			log.Info.Panic("Could not setup secure session.", err)
+		}
+		log.Debug.Println("Setup secure session")
+
+		// The controller uses the new keys as soon as it has received this response:
+		// whatever arrives from now on is read with them.
+		session.SetDecrypter(secSession)
+
+		// The response itself is written the way the connection wrote until now (in plaintext, or
+		// with the keys of the session which is replaced). It is written completely ...
+		response.Header().Set("Content-Length", strconv.Itoa(len(body)))
+		response.Write(body)
+		if f, ok := response.(http.Flusher); ok {
+			f.Flush()
+		}
+
+		// ... before everything else is written with the new keys. (Notifications are
+		// held back until the request is handled.)
+		session.SetEncrypter(secSession)
 	}
 }
